@@ -35,7 +35,10 @@ pub fn execute(p: &Profile, tier: Tier, mut tape: Tape) -> (RunOut, Vec<u64>) {
                 Err(pl) => {
                     let msg = crate::libi::panic_text(&pl);
                     let mut o = RunOut::default();
-                    if msg.contains("/repo/") || msg.contains("scratchstack") || !msg.contains("sim/src") {
+                    // harness sources are compiled with relative paths ("src/…"); the library and its
+                    // dependencies with absolute ones ("/repo/src/…", "…/registry/src/…")
+                    let harness = msg.rsplit(" @ ").next().map(|l| l.starts_with("src/")).unwrap_or(false);
+                    if !harness {
                         o.violate("C08", "no-panic", format!("unwinding panic escaped to the harness boundary in profile {}: {}", id, msg));
                     } else {
                         o.harness_notes.push(format!("HARNESS-PANIC {}", msg));
